@@ -156,8 +156,50 @@ def _solve(pc, goal, timeout_ms, expect):
     t0 = time.time()
     if expect != "unsat":
         s = _mk_solver(pc, goal, timeout_ms)
-        r = str(s.check())
-        return s, r, (time.time() - t0) * 1000, "z3-5.1(api)"
+        proc = path = None
+        if any(_mentions_strings(f) for f in pc) or _mentions_strings(goal):
+            # satisfiability of a string query (canary / reachability; no model needed): cvc5 runs beside z3 - it answers
+            # most of them in 0.1 s where z3's sequence solver needs seconds (and z3 wins on the quantified ones)
+            try:
+                fd, path = tempfile.mkstemp(suffix=".smt2", prefix="pyvc_")
+                os.write(fd, ("(set-logic ALL)\n" + s.to_smt2()).encode())
+                os.close(fd)
+                proc = subprocess.Popen(["/usr/bin/cvc5", "--strings-exp", "--tlimit=%d" % max(3000, timeout_ms), path],
+                                        stdout=subprocess.PIPE, stderr=subprocess.DEVNULL, text=True)
+            except Exception:
+                proc = None
+        try:
+            r, be = "unknown", "z3-5.1(api)"
+            if proc is not None:
+                # give cvc5 a head start of a few hundred ms before z3 occupies this thread
+                try:
+                    out = proc.communicate(timeout=0.4)[0].strip().split("\n")[0]
+                    if out in ("sat", "unsat"):
+                        return s, out, (time.time() - t0) * 1000, "cvc5-1.0.3"
+                    proc = None
+                except subprocess.TimeoutExpired:
+                    pass
+            r = str(s.check())
+            if r == "unknown" and proc is not None:
+                try:
+                    out = proc.communicate(timeout=max(3, timeout_ms // 1000))[0].strip().split("\n")[0]
+                    if out in ("sat", "unsat"):
+                        r, be = out, "cvc5-1.0.3"
+                except subprocess.TimeoutExpired:
+                    pass
+            return s, r, (time.time() - t0) * 1000, be
+        finally:
+            if proc is not None and proc.poll() is None:
+                proc.kill()
+                try:
+                    proc.communicate(timeout=2)
+                except Exception:
+                    pass
+            if path:
+                try:
+                    os.unlink(path)
+                except OSError:
+                    pass
     backend = "z3-5.1(api)"
     last = None
     for sub in split_goal(goal):
@@ -251,24 +293,31 @@ def _run_cli(cmd, text, wall):
     return out if out in ("sat", "unsat") else "unknown"
 
 
-def _race(cmds, text):
-    """run several solver binaries on the same query concurrently; the first sat/unsat wins, the others are killed.
-    cmds: [(argv, backend name, wall seconds)].  Returns (result, backend)."""
+def _race(cmds, text, stagger=0.3):
+    """run several solver binaries on the same query; the first sat/unsat wins, the others are killed.
+    cmds: [(argv, backend name, wall seconds)] in order of preference: the k-th one is only started when the earlier
+    ones have not answered after k * stagger seconds (most queries are answered by the first solver in milliseconds, so
+    the second process is rarely started at all).  Returns (result, backend)."""
     fd, path = tempfile.mkstemp(suffix=".smt2", prefix="pyvc_")
     os.write(fd, text.encode())
     os.close(fd)
     procs = []
     try:
         t0 = time.time()
-        for argv, name, wall in cmds:
-            try:
-                procs.append((subprocess.Popen(argv + [path], stdout=subprocess.PIPE, stderr=subprocess.DEVNULL, text=True), name, wall))
-            except Exception:
-                pass
-        live = list(procs)
-        while live:
+        todo = list(enumerate(cmds))
+        live = []
+        while todo or live:
+            now = time.time() - t0
+            while todo and now >= todo[0][0] * stagger:
+                k, (argv, name, wall) = todo.pop(0)
+                try:
+                    pr = subprocess.Popen(argv + [path], stdout=subprocess.PIPE, stderr=subprocess.DEVNULL, text=True)
+                    procs.append(pr)
+                    live.append((pr, name, wall, time.time()))
+                except Exception:
+                    pass
             for item in list(live):
-                pr, name, wall = item
+                pr, name, wall, started = item
                 rc = pr.poll()
                 if rc is not None:
                     live.remove(item)
@@ -278,14 +327,20 @@ def _race(cmds, text):
                         out = ""
                     if out in ("sat", "unsat"):
                         return out, name
-                elif time.time() - t0 > wall:
+                elif time.time() - started > wall:
                     pr.kill()
                     live.remove(item)
-            if live:
-                time.sleep(0.01)
+            if not live and todo:
+                # everything started so far has given up: start the next one now
+                k, c = todo.pop(0)
+                todo.insert(0, (0, c))
+                t0 = time.time()
+                continue
+            if live or todo:
+                time.sleep(0.005)
         return "unknown", cmds[-1][1]
     finally:
-        for pr, _, _ in procs:
+        for pr in procs:
             if pr.poll() is None:
                 try:
                     pr.kill()
